@@ -53,8 +53,35 @@ SHRINK = ['scripts', 'ops']
 PATH = '/sim/Data.fs'
 
 
+def gen_idxrace(r, tier):
+    """The index a pack saves, under commits of many records: bulk
+    committers keep a commit pending while the pack finishes; line-level
+    pre-emption inside the index (fsIndex.update runs record by record);
+    crash images after the pack are opened with the index it saved."""
+    from .. import seams
+    scripts = []
+    for _ in range(r.choice((1, 2))):
+        scripts.append([{'steps': [['w', k] for k in
+                                   r.sample(range(8), r.randint(6, 8))]}
+                        for _ in range(r.randint(3, 6))])
+    sch = mvcc.sched_config(r)
+    sch['strategy'] = r.choice(('random', 'sticky'))
+    sch['fine'] = {'p': r.choice((0.3, 0.5)),
+                   'prefix': seams.repo_src() + '/ZODB/fsIndex'}
+    return {'arm': 'crash', 'kind': 'file', 'ncell': 8, 'scripts': scripts,
+            'packers': [{'delay': r.randrange(0, 60),
+                         'dt': r.choice((0.0, 5.0))}],
+            'st_opts': {'pack_keep_old': r.random() < 0.5},
+            'explicit': [False] * len(scripts), 'cache_size': 400,
+            'pool_size': 7, 'bufsize': r.choice((512, 8192)),
+            'classes': ['Cell'] * 8, 'sched': sch, 'tick': 0.37,
+            'tier': tier, 'prefill': r.randint(1, 2), 'idxrace': True}
+
+
 def gen(seed, tier):
     r = random.Random(seed)
+    if r.random() < 0.06:
+        return gen_idxrace(r, tier)
     arm = r.choice(('sched', 'sched', 'crash', 'fail'))
     if arm == 'fail':
         ops = G.gen_history(ctx.subseed(seed, 'h'), 'file',
@@ -71,12 +98,19 @@ def gen(seed, tier):
                 'bufsize': r.choice((64, 512, 8192)), 'tier': tier,
                 'where': r.choice(('after_all', 'at', 'between')),
                 'at': r.randrange(8)}
-    ncell = r.choice((1, 2, 3))
+    ncell = r.choice((1, 2, 3, 3, 8))
     nclient = r.choice((1, 2, 2, 3))
     scripts = []
     for i in range(nclient):
         sc = mvcc.gen_script(r, ncell, r.randint(2, 6),
                              write_p=r.choice((0.3, 0.7)), misc_p=0.1)
+        if ncell == 8:
+            # bulk transactions: more records than the sanity check of a
+            # saved index looks at (the index of a pack must not be saved
+            # while such a commit is half way into the index)
+            for _ in range(r.randint(1, 2)):
+                sc.insert(r.randrange(len(sc) + 1), {'steps': [
+                    ['w', k] for k in r.sample(range(8), r.randint(6, 8))]})
         if r.random() < 0.3:
             sc.insert(r.randrange(1, len(sc) + 1), {'t': 'undo',
                                                     'k': -1 - r.randrange(2)})
@@ -99,7 +133,8 @@ def gen(seed, tier):
             'pool_size': r.choice((1, 7)),
             'bufsize': r.choice((16, 64, 512, 8192, 65536)),
             'classes': ['Cell'] * ncell,
-            'sched': mvcc.sched_config(r), 'tick': r.choice((0.37, 0.37, 1e-7)), 'tier': tier,
+            'sched': mvcc.sched_config(r),
+            'tick': r.choice((0.37, 0.37, 1e-7)), 'tier': tier,
             'prefill': r.randint(1, 4)}
 
 
@@ -304,7 +339,7 @@ def crash_cuts(w, s, case, stats, keys):
     r = random.Random(ctx.subseed(case['seed'], 'cuts'))
     n = 0
     import zlib
-    for k in range(first, min(last + 3, len(log)) + 1):
+    for k in range(first, min(last + 25, len(log)) + 1):
         rep.advance(k)
         op = log[k - 1] if k else None
         if op is not None and op[0] in ('write', 'truncate') \
